@@ -6,7 +6,7 @@ TRUSTED = ["python ast (stdlib)", "RxPY: Subject delivers synchronously in subsc
 
 
 def rules_for(prop):
-    from .rules import mx, st, grp, lv, scan, er, ms, tm, seq, pr, ag, io, cont
+    from .rules import mx, st, grp, lv, scan, er, ms, tm, seq, pr, ag, io, cont, num
     from functools import partial as P
 
     def named(f, **kw):
@@ -28,7 +28,7 @@ def rules_for(prop):
                                                        "rxsci/data/lag.py", "rxsci/data/pad.py", "rxsci/operators/start_with.py",
                                                        "rxsci/data/batch.py"), min_instances=30)],
         "C11": [pr.rule_pr1, pr.rule_pr2, grp.rule_pr3, seq.rule_dp6, st.rule_st1],
-        "C12": [ag.rule_ag4, named(scan.rule_pu1, files=("rxsci/math/sum.py", "rxsci/math/mean.py", "rxsci/math/min.py", "rxsci/math/max.py",
+        "C12": [num.rule_nm1, ag.rule_ag4, named(scan.rule_pu1, files=("rxsci/math/sum.py", "rxsci/math/mean.py", "rxsci/math/min.py", "rxsci/math/max.py",
                                                           "rxsci/math/variance.py", "rxsci/math/stddev.py", "rxsci/math/formal/variance.py",
                                                           "rxsci/math/formal/stddev.py", "rxsci/math/formal/__init__.py"))],
         "C13": er.RULES + [mx.rule_wc2],
@@ -91,9 +91,11 @@ EXPLANATION = {
     "C11": _COMMON + "Decided clauses: PR-1 no scheduler/timer/thread call outside the three sources and every emission is made inside a "
            "handler; PR-2 the set of completion-time emitters is exactly scan(reduce/terminator), last, pad_end (plus named plain codecs); "
            "PR-3 windows/segments are completed while their closing item is handled; DP-6; ST-1 (no buffering of items in closures).",
-    "C12": "Only the clause 'streaming value after the last item equals the reduce value / each emitted value reflects the items so far' "
-           "is decided: AG-4 every math aggregate forwards reduce unchanged to a single scan (one code path) and PU-1 its post-processing "
-           "mappers and accumulators are pure. Accuracy, conditioning and n-1 vs n are not decidable statically and are not claimed.",
+    "C12": _COMMON + "Decided clauses: NM-1 the update recurrences and output formulas of sum, mean, min, max, variance (Welford: the "
+           "(mean, M2, count) invariant determines the update uniquely), formal.variance (centred second moment, not E[x^2] - mean^2), "
+           "_moment and both stddev equal the reference ones as rational functions / comparison polarity; variance of fewer than two items "
+           "is 0; AG-4 one code path shared by streaming and reduce; PU-1 purity of accumulators and output mappers. Rounding error, i.e. "
+           "the accuracy bound itself, is not decidable statically and is not claimed.",
     "C13": _COMMON + "Decided clauses: ER-1 every user call of map/filter/scan is inside a try catching Exception whose handler emits exactly "
            "one OnErrorMux(key, exception, store) and no state was written before the raise; ER-2 ignore / error.map / router behaviour "
            "per kind incl. dead-letter completion order; ER-3 both demultiplexers turn a mux error into on_error; WC-2.",
@@ -126,8 +128,9 @@ DEFAULT_LEVEL_NOTE = ("Trusted: python ast; RxPY delivery semantics; the idiom t
 LEVEL_TEXT = {k: ("All-paths static analysis of the clauses listed in DESIGN.md section 3 for %s: each obligation is discharged on every "
                   "path / kind / configuration or reported with the failing construct; this decides those clauses for every input, schedule "
                   "and history at once, which tests cannot, but not the behaviour beyond them." % k) for k in EXPLANATION}
-LEVEL_TEXT["C12"] = ("Narrow: only 'one fold shared by streaming and reduce' and purity of the callbacks are decided; numerical accuracy is "
-                     "out of reach of static analysis and not claimed.")
+LEVEL_TEXT["C12"] = ("Algebraic: the recurrences and output formulas are compared with the reference ones as rational functions (normal "
+                     "forms, no solver), the centred forms are required, and streaming/reduce share one fold; the floating-point accuracy bound "
+                     "itself is out of reach of static analysis and not claimed.")
 LEVEL_NOTE = {}
 TECHNIQUE = {
     "C01": "static analysis: dual-dispatch closure over the call graph, arm-argument agreement, sibling path-summary comparison",
@@ -141,7 +144,7 @@ TECHNIQUE = {
     "C09": "static analysis: taint of the seed parameter, fold skeleton per configuration, callback effect classification",
     "C10": "static analysis: per-path emission/bookkeeping summaries, dependence of batch flags, partial evaluation on the seed literal",
     "C11": "static analysis: who-may-call rule for schedulers, closed set of completion-time emitters, close-on-item rule",
-    "C12": "static analysis: single-code-path and purity checks only (accuracy not applicable to this technique)",
+    "C12": "static analysis: rational-function normal forms of the aggregate recurrences, single-code-path and purity checks",
     "C13": "static analysis: exceptional-edge path enumeration (must-catch, one error event, no write before raise), handler tables",
     "C14": "static analysis: per-method representation-invariant obligations on all paths, forwarder agreement",
     "C15": "static analysis: writer/reader agreement, inclusive-comparison normal forms, carry-over def-use",
